@@ -196,7 +196,11 @@ func mainRun(args []string) int {
 			avoid[kid] = true
 			kid := kid
 			hit := func(c *Verdict) bool { _, ok := c.KnownHits[kid]; return ok }
-			msc, mv, st := shrinkBy(p, sc, v, time.Duration(*shrinkSec*float64(time.Second)), hit)
+			ks := *shrinkSec
+			if ks > 3 {
+				ks = 3 // a listed finding needs no long minimisation
+			}
+			msc, mv, st := shrinkBy(p, sc, v, time.Duration(ks*float64(time.Second)), hit)
 			rec := ViolationRec{Class: "known:" + kid, Msg: mv.KnownHits[kid], Known: kid, Seed: *seed, Index: idx, Shrink: fmt.Sprintf("tried=%d kept=%d", st.Tried, st.Kept)}
 			if err := writeReplay(*replays, *prop, *tier, &rec, msc); err != nil {
 				res.Trouble = err.Error()
